@@ -3,6 +3,7 @@ import RisorModel.C04.Model
 import RisorModel.C04.FragCertOracle
 import RisorModel.C04.FunCertOracle
 import RisorModel.C04.CloCertOracle
+import RisorModel.C04.SeqCertOracle
 import RisorModel.C04.MultiVarOracle
 import RisorModel.C04.ObsOracle
 /-! Line-protocol front end of the C04 model.
@@ -44,6 +45,7 @@ def handle : List String → String
   | "fragcert" :: rest => handleFragCert rest
   | "funcert" :: rest => handleFunCert rest
   | "clocert" :: rest => handleCloCert rest
+  | "seqcert" :: rest => handleSeqCert rest
   | "funin" :: rest => handleFunIn rest
   | "multi" :: rest => MV.handleMulti rest
   | "multicode" :: rest => MV.handleMultiCode rest
